@@ -10,6 +10,7 @@ extern "C" {
   int verif_int_in(int lo, int hi);          // symbolic integer in [lo,hi] (coordinate-like; relaxed to a real for proving)
   double verif_double_in(double lo, double hi); // symbolic double in [lo,hi] (any value, inexact)
   int verif_choice(int n);                   // symbolic choice in [0,n): the path is forked per feasible value
+  void verif_band_nofork(int on);            // 1: inexact FP comparisons yield may/must pairs instead of forking (for branch-free oracle code; executor only)
   void verif_heap_order(int mode);           // 0: later heap objects get higher addresses; 1: lower (executor only)
 }
 // Harness code that does *integer* arithmetic on symbolic values must not be optimised: the executor relaxes integer
